@@ -515,6 +515,34 @@ def configuration_twins(chk, F, rng):
                 raise
             chk.violation("twin:relations-file-rewritten", "fill_cij(table, <path>) raises %s: %s after the relations file at that path was "
                           "rewritten with the hexagonal relations (it held the cubic ones at the previous call)" % (type(e).__name__, str(e)[:100]), {})
+        # (5) the command line: each flag alone switches off exactly its own refusal
+        try:
+            from click.testing import CliRunner
+            import cij.cli.fill as cf
+            under = os.path.join(tmp, "under.dat")        # consistent but under-determined for cubic (no c44)
+            contra = os.path.join(tmp, "contra.dat")      # sufficient but contradicting (c11 != c22)
+            with open(under, "w") as fp:
+                fp.write("under-determined\n100.0 2 50.0\nV c11 c12\n100.0 300.0 100.0\n90.0 320.0 110.0\n")
+            with open(contra, "w") as fp:
+                fp.write("contradicting\n100.0 2 50.0\nV c11 c22 c12 c44\n100.0 300.0 360.0 100.0 80.0\n90.0 320.0 390.0 110.0 85.0\n")
+            want = {(under, ()): False, (under, ("--ignore-rank",)): True, (under, ("--ignore-residuals",)): False,
+                    (contra, ()): False, (contra, ("--ignore-residuals",)): True, (contra, ("--ignore-rank",)): False,
+                    (under, ("--ignore-rank", "--ignore-residuals")): True, (contra, ("--ignore-rank", "--ignore-residuals")): True}
+            wrong = []
+            for (fn_, flags), ok_expected in want.items():
+                with warnings.catch_warnings():
+                    warnings.simplefilter("ignore")
+                    r = CliRunner().invoke(cf.main, [fn_, "-s", "cubic"] + list(flags))
+                if (r.exit_code == 0) != ok_expected:
+                    wrong.append("%s %s -> %s" % (os.path.basename(fn_), " ".join(flags) or "(no flag)", "accepted" if r.exit_code == 0 else "refused"))
+            if wrong:
+                chk.violation("twin:cli-flags", "cij fill: the ignore flags do not switch off exactly their own refusal: %s" % "; ".join(wrong[:4]), {})
+            else:
+                chk.side_check("twin cij fill command: --ignore-rank / --ignore-residuals each waive exactly their own refusal (8 runs)", True)
+        except BaseException as e:
+            if isinstance(e, (KeyboardInterrupt, SystemExit)):
+                raise
+            chk.note("cli flag twin not executed: %s: %s" % (type(e).__name__, e))
     finally:
         os.chdir(cwd)
         shutil.rmtree(tmp, ignore_errors=True)
